@@ -7,6 +7,7 @@ import (
 	"fmt"
 	"strings"
 	"sync"
+	"time"
 
 	"github.com/inbucket/inbucket/v3/pkg/vrt/vsched"
 
@@ -148,7 +149,83 @@ func c02SchedScenario(c *fw.Ctx, sp c02SchedSpec) schedScenario {
 	return schedScenario{ID: sp.ID, Bound: b, Run: run}
 }
 
+// c02LatestScenario: a client reads the source of "latest" through REST and the web UI while a
+// longer message is being delivered to the same mailbox.  Whatever the schedule, each answer is
+// 200 and carries exactly the bytes of ONE of the two messages - the one that was the latest at
+// some moment of the request - never a mixture, a prefix or an error.
+func c02LatestScenario(c *fw.Ctx, backend string) schedScenario {
+	id := "T4-" + backend + "-latest-source-while-delivering"
+	short := "Subject: first\r\n\r\nshort body\r\n"
+	long := "Subject: second\r\n\r\n" + strings.Repeat("a much longer body line\r\n", 40)
+	run := func(cfg vsched.Config) (res schedResult) {
+		var e *vsched.Exec
+		var mu sync.Mutex
+		got := map[string]sys.HTTPResp{}
+		var probs [][2]string
+		leaked := inBubble(c.T, func() {
+			var s *sys.Sys
+			e = vsched.Run(cfg, func() (func(), []vsched.Thread, func()) {
+				s = sys.New(sys.Spec{Store: sys.StoreSpec{Backend: backend}, SMTP: sys.DefaultSMTP(), Web: true, NoHub: true})
+				init := func() {
+					_, _ = s.StoreH.Store.AddMessage(sys.Delivery("u", "f@x.test", []string{"u@x.test"}, "first", short, time.Now()))
+				}
+				reader := func(name, path string) vsched.Thread {
+					return vsched.Thread{Name: name, F: func() {
+						vsched.Point(name + ": GET")
+						r := s.HTTP("GET", path, nil)
+						mu.Lock()
+						got[name] = r
+						mu.Unlock()
+					}}
+				}
+				ths := []vsched.Thread{
+					reader("rest-reader", "/api/v1/mailbox/u/latest/source"),
+					{Name: "deliverer", F: func() {
+						vsched.Point("deliverer: about to deliver")
+						_, _ = s.StoreH.Store.AddMessage(sys.Delivery("u", "f@x.test", []string{"u@x.test"}, "second", long, time.Now()))
+					}},
+					reader("web-reader", "/serve/mailbox/u/latest/source"),
+				}
+				cleanup := func() {
+					safely(func() {
+						mu.Lock()
+						defer mu.Unlock()
+						for _, name := range []string{"rest-reader", "web-reader"} {
+							r := got[name]
+							switch {
+							case r.Panic != nil:
+								probs = append(probs, [2]string{"latest-source|panic", fmt.Sprintf("%s: handler failed: %v", name, r.Panic)})
+							case r.Status != 200:
+								probs = append(probs, [2]string{fmt.Sprintf("latest-source|status-%d", r.Status), fmt.Sprintf("%s: the source of 'latest' answered %d while a delivery was in progress (the mailbox was never empty)", name, r.Status)})
+							case string(r.Body) != short && string(r.Body) != long:
+								probs = append(probs, [2]string{"latest-source|neither-message", fmt.Sprintf("%s: the source of 'latest' is %d bytes %q: neither the first message (%d bytes) nor the second (%d bytes)", name, len(r.Body), clipQ(string(r.Body)), len(short), len(long))})
+							}
+						}
+					})
+					s.Close()
+				}
+				return init, ths, cleanup
+			})
+		})
+		if leaked != "" && (e == nil || (len(e.Panics) == 0 && !e.Deadlock)) {
+			res.Infra = "bubble: " + leaked
+			return res
+		}
+		res.Exec = e
+		res.Probs = append(res.Probs, stdProbs(e)...)
+		res.Outcome = fmt.Sprintf("rest=%d bytes web=%d bytes", len(got["rest-reader"].Body), len(got["web-reader"].Body))
+		if len(res.Probs) == 0 {
+			res.Probs = append(res.Probs, probs...)
+		}
+		return res
+	}
+	return schedScenario{ID: id, Bound: fw.Pick(c, 2, 3), Run: run}
+}
+
 func c02SchedRun(c *fw.Ctx) {
+	for _, be := range []string{"mem", "file"} {
+		c.Share(4, func() { exploreSched(c, c02LatestScenario(c, be)) })
+	}
 	specs := c02SchedSpecs()
 	for i, sp := range specs {
 		c.Share(len(specs)-i, func() { exploreSched(c, c02SchedScenario(c, sp)) })
@@ -158,6 +235,12 @@ func c02SchedRun(c *fw.Ctx) {
 func c02SchedReplay(c *fw.Ctx, raw json.RawMessage) {
 	var cas schedCase
 	_ = json.Unmarshal(raw, &cas)
+	for _, be := range []string{"mem", "file"} {
+		if sc := c02LatestScenario(c, be); sc.ID == cas.Scenario {
+			replaySched(c, sc, raw)
+			return
+		}
+	}
 	for _, sp := range c02SchedSpecs() {
 		if sp.ID == cas.Scenario {
 			replaySched(c, c02SchedScenario(c, sp), raw)
